@@ -191,3 +191,31 @@ CHECKS = [
           rle_sym, rle_real, labels=("multi_run",),
           doc="util.rlencode reconstructs its input for every block size", bounds=dict(quick="L<=4", thorough="L<=6")),
 ]
+
+
+# ---------------------------------------------------------------------------
+# thorough tier only: ONE concrete creation across the real 1e6-row block of the run-length indexer (a scale test on the real
+# stack, not a solver question; the block carry logic is decided by `index_blocks`/`rlencode` for every block size)
+# ---------------------------------------------------------------------------
+def big_sym(p):
+    cover("concrete_scale_run", True)
+    return ["valid"]
+
+
+def big_real(p, inputs):
+    import cooler
+    import pandas as pd
+    n = 1600
+    bins = pd.DataFrame({"chrom": ["c0"] * n, "start": np.arange(n) * 10, "end": np.arange(1, n + 1) * 10})
+    iu = np.triu_indices(n)
+    keep = slice(0, 1_200_000)
+    pix = {"bin1_id": iu[0][keep].astype(np.int64), "bin2_id": iu[1][keep].astype(np.int64), "count": np.ones(1_200_000, dtype=np.int32)}
+    path = scratch_file("c02big.cool")
+    cooler.create_cooler(path, bins, iter([pix]), ordered=True)
+    validity_real(path)
+    return ["valid"]
+
+
+CHECKS.append(Check("scale_1e6", lambda tier: [] if tier == "quick" else [dict()], big_sym, big_real, labels=(),
+                    doc="thorough only: one real-stack creation with 1.2e6 pixels across the indexer's real block boundary, validated with the schema predicate",
+                    bounds=dict(thorough="one concrete input"), timeout=1800))
